@@ -208,7 +208,7 @@ def check_c08(pid, tier, seed, replay):
     else:
         mc_render(ck, "one", {"MaxCmds": 1, "Kinds": "{0, 2, 5}", "Hs": "{1, 2, 3}", "Ds": "{0, 1, 4}", "AreaToks": 2, "Rich": "TRUE"}, dump=False)
         mc_render(ck, "two", {"MaxCmds": 2, "Kinds": "{0, 5}", "Hs": "{1, 2}", "Ds": "{0, 3}", "AreaToks": 1, "Rich": "FALSE"}, dump=True)
-        mc_render(ck, "three", {"MaxCmds": 3, "Kinds": "{1}", "Hs": "{1, 2}", "Ds": "{0, 3}", "AreaToks": 1, "Rich": "FALSE"}, dump=False)
+        mc_render(ck, "three", {"MaxCmds": 3, "Kinds": "{1}", "Hs": "{1}", "Ds": "{0, 3}", "AreaToks": 1, "Rich": "FALSE"}, dump=False)
         mc_parser(ck, "A4", ALPHA_A, 4, dump=False)
     ck.cov["exhaustive"] = True
     if quick:
